@@ -7,7 +7,7 @@
 (* that collide in a caseless namespace), a tree array and one data set     *)
 (* (detached; DSAttach reaches the attached mode).  Groups selects families. *)
 EXTENDS Containers
-CONSTANTS MaxOps, Groups, Big, Wide
+CONSTANTS MaxOps, Groups, Big, Wide, Focus
 VARIABLES u, last, nops
 vars == <<u, last, nops>>
 
@@ -15,7 +15,7 @@ U0(att) ==
     [labels |-> <<"a", "b", "a", "A", "c", "B", "Z">>,
      ns     |-> <<[mem |-> <<1, 2>>, cs |-> FALSE], [mem |-> <<3, 4, 5>>, cs |-> TRUE], [mem |-> <<6, 7>>, cs |-> FALSE]>>,
      trees  |-> <<[ns |-> 1, refs |-> <<1, 2>>], [ns |-> 2, refs |-> <<3, 4, 5>>], [ns |-> 2, refs |-> <<4, 5, 4>>],
-                  [ns |-> 3, refs |-> <<6, 7>>], [ns |-> 2, refs |-> <<5, 3>>]>>,
+                  [ns |-> 3, refs |-> <<6, 7>>], [ns |-> 2, refs |-> <<5, 3>>], [ns |-> 2, refs |-> <<3, 5>>]>>,
      lists  |-> <<[ns |-> 1, trees |-> <<1>>], [ns |-> 2, trees |-> <<2, 3>>]>>,
      mats   |-> <<[ns |-> 2, rows |-> <<3, 4>>], [ns |-> 3, rows |-> <<6>>]>>,
      arrs   |-> <<[ns |-> 1, sd |-> 1, n |-> 0]>>,
@@ -35,7 +35,28 @@ U1(att) ==
 NoOp == [a |-> "", x |-> <<>>, raised |-> ""]
 Init == /\ u \in (IF Big THEN {U1(0), U1(3)} ELSE {U0(0)}) /\ last = NoOp /\ nops = 0
 
+\* Focus selects a narrow family of operations around one kind of history-dependent hidden state, so that its
+\* histories can be enumerated (and replayed on real objects) deeper:
+\*  "L": import a tree from a foreign namespace into list 1 ; change the namespace of list 1 ; import another tree
+\*       from the same foreign namespace (two free trees of N2 and one of N3 are in the universe)
+\*  "D": read into / add to the data set ; attach / unify ; read again; matrix 2 migrated and cloned in between
+Has(x, f) == f \in DOMAIN x
+FocusOK(a, x) ==
+    CASE Focus = "" -> TRUE
+      [] Focus = "L" ->
+            /\ a \in {"TLAppend", "TLInsert", "TLSetItem", "TLExtendTrees", "TLSetSliceTrees", "TLMigrate", "TLReconstruct", "TLRemoveAt", "TreeClone"}
+            /\ (Has(x, "l") => x.l = 1) /\ (Has(x, "t") => x.t \in {4, 5, 6}) /\ (Has(x, "i") => x.i = 0)
+            /\ (Has(x, "strat") => x.strat = "migrate") /\ (Has(x, "ts") => x.ts \in {<<6>>, <<5, 5>>})
+            /\ (Has(x, "lo") => x.lo = 0 /\ x.hi = 1) /\ (Has(x, "how") => x.how = "pop")
+            /\ (a = "TLReconstruct" => x.unify) /\ (a = "TreeClone" => x.t = 5 /\ x.nsarg = 0)
+      [] Focus = "D" ->
+            /\ a \in {"DSRead", "DSReadBlocks", "DSAddList", "DSNewList", "DSAttach", "DSDetach", "DSUnify", "CMMigrate", "CMClone", "TLAppend", "TLMigrate"}
+            /\ (Has(x, "m") => x.m = 2) /\ (Has(x, "l") => x.l = 1) /\ (Has(x, "t") => x.t = 5)
+            /\ (Has(x, "strat") => x.strat = "migrate") /\ (Has(x, "nsarg") => x.nsarg \in {0, 1}) /\ (Has(x, "n") => x.n \in {1, 3})
+            /\ (a \in {"TLMigrate", "CMMigrate"} => x.unify)
+            /\ (Has(x, "src") => x.src.rows # <<>>)
 Act(a, x) == /\ nops < MaxOps /\ nops' = nops + 1
+             /\ FocusOK(a, x)
              /\ Guard(u, a, x)
              /\ LET r == Apply(u, a, x) IN u' = r.u /\ last' = [a |-> a, x |-> x, raised |-> r.raised]
 
@@ -43,24 +64,26 @@ Act(a, x) == /\ nops < MaxOps /\ nops' = nops + 1
 \* Wide = FALSE: the narrow sets of the deep runs;  Wide = TRUE: every object of the universe.
 W(wide, narrow) == IF Big \/ Wide THEN wide ELSE narrow
 LS == IF Big THEN 1..5 ELSE 1..3
-TS == IF Big THEN 1..10 ELSE 1..6
+TS == IF Big THEN 1..10 ELSE 1..7
 NS == IF Big THEN 1..4 ELSE 1..3
 NS0 == {0} \cup NS
 MS == IF Big THEN 1..4 ELSE 1..3
 AS == IF Big THEN 1..2 ELSE {1}
 XS == IF Big THEN 1..12 ELSE 1..7
 Strats == {"migrate", "add"}
-TSeqs == IF Big THEN {<<5, 6>>, <<4, 8>>, <<7, 7>>, <<1, 9>>} ELSE W({<<4, 5>>, <<5, 5>>, <<1, 3>>}, {<<4, 5>>})
+TSeqs == IF Big THEN {<<5, 6>>, <<4, 8>>, <<7, 7>>, <<1, 9>>} ELSE W({<<4, 5>>, <<5, 5>>, <<1, 3>>, <<6>>}, {<<4, 5>>})
 Slices == W({<<0, 0>>, <<0, 1>>, <<1, 2>>, <<0, 2>>}, {<<0, 1>>, <<1, 2>>})
 TreeSrcs == {<<<<"A", "b", "C">>, <<"a", "c">>>>, <<<<"Z", "AB">>>>}
 Docs == {[taxa |-> <<"A", "b", "C">>, rows |-> <<"A", "b">>, trees |-> <<<<"A", "b", "C">>, <<"C", "A">>>>],
          [taxa |-> <<"a", "A", "Z">>, rows |-> <<"a", "A">>, trees |-> <<<<"Z", "a", "A">>>>]}
          \cup W({[taxa |-> <<"B", "c">>, rows |-> <<>>, trees |-> <<<<"c", "B">>>>]}, {})
+BlockDocs == {<<[taxa |-> <<"A", "b", "C">>, trees |-> <<<<"A", "b", "C">>>>], [taxa |-> <<"A", "C", "Z">>, trees |-> <<<<"Z", "A", "C">>>>]>>}
+             \cup W({<<[taxa |-> <<"a", "Z">>, trees |-> <<<<"Z", "a">>>>], [taxa |-> <<"z", "B">>, trees |-> <<<<"B", "z">>, <<"z">>>>]>>}, {})
 KeySets == W({<<"a", "B">>, <<"A", "a", "c">>}, {<<"A", "a", "c">>})
 LS2 == W(LS, 1..2)              \* lists named as first operand
 FreeT == W(TS, {4, 5})          \* trees offered to a list
 CloneT == W(TS, {2, 4})
-ArrT == W(TS, {1, 4, 6})
+ArrT == W(TS, {1, 4, 7})
 RowX == W(XS, {1, 5})
 Idx == W({0, 1}, {0})
 Rm == W({0, 1} \X {"pop", "del", "remove"}, {<<0, "pop">>, <<0, "remove">>, <<1, "del">>})
@@ -101,6 +124,7 @@ CMUpdate(m) == G("mat") /\ Act("CMUpdate", [m |-> m])
 CMFromDict(keys, n) == G("mat") /\ Act("CMFromDict", [keys |-> keys, nsarg |-> n])
 CMClone(m, n) == G("mat") /\ Act("CMClone", [m |-> m, nsarg |-> n])
 DSRead(src, n) == G("ds") /\ Act("DSRead", [src |-> src, nsarg |-> n])
+DSReadBlocks(bs, n) == G("ds") /\ Act("DSReadBlocks", [blocks |-> bs, nsarg |-> n])
 DSAddList(l) == G("ds") /\ Act("DSAddList", [l |-> l])
 DSAddMat(m) == G("ds") /\ Act("DSAddMat", [m |-> m])
 DSNewList(n) == G("ds") /\ Act("DSNewList", [nsarg |-> n])
@@ -140,6 +164,7 @@ Next == \/ \E l \in LS2, t \in FreeT, s \in Strats : TLAppend(l, t, s)
         \/ \E keys \in KeySets, n \in W(NS0, {0, 2}) : CMFromDict(keys, n)
         \/ \E m \in MS, n \in NsA : CMClone(m, n)
         \/ \E src \in Docs, n \in NsA : DSRead(src, n)
+        \/ \E bs \in BlockDocs, n \in NsA : DSReadBlocks(bs, n)
         \/ \E l \in LS : DSAddList(l)
         \/ \E m \in MS : DSAddMat(m)
         \/ \E n \in W(NS0, {0, 2}) : DSNewList(n)
